@@ -1,6 +1,7 @@
 package main
 
 import (
+	"io"
 	"fmt"
 	"net/http"
 	"sort"
@@ -210,6 +211,9 @@ func kFields(args []string) (string, string) {
 			n, err := wf.Write(&sb)
 			if err != nil || int(n) != sb.Len() {
 				res = "write-count-wrong"
+			} else if d := writeFaultCheck([]byte(sb.String()), func(w io.Writer) (int64, error) { return wf.Write(w) }); d != "" {
+				res = "write-fault-swallowed"
+				oracle = "VIOL mm-write-fault " + sanitize(d)
 			} else {
 				res = hxs(sb.String())
 			}
